@@ -31,7 +31,7 @@ CHECKS = {
  "C05": dict(
     text="Every feasible path of the real luminance / ratio / level / is_readable code over six symbolic 8-bit channels (and a free real ratio) "
          "is compared by the solver with an independent WCAG 2 reference; unsat on all paths = holds for all 2^24 colours / 2^48 pairs / all ratios, "
-         "within a real-arithmetic model of doubles with a 1e-9 guard band.",
+         "within a real-arithmetic model of doubles with a 1e-9 guard band.  The label jobs also ask the same pair at the other text size first, on the same path.",
     note="doubles modelled as reals (guard band 1e-9); pow(x,2.4) as UF with exact rational enclosure tables; trusted: z3/cvc5, vf/ref.py, CPython floats",
     design="3 C05", technique=TECH, thorough=True),
  "C06": dict(
@@ -102,7 +102,7 @@ CHECKS = {
  "C19": dict(
     text="CrossHair runs the three real report generators with one or two symbolic characters in one user-controlled slot at a time and searches for a text whose report "
          "differs from the marker report with the marker replaced by the per-character HTML escape (quotes included).",
-    note="bounded bug-hunting: text of 1 and 2 symbolic characters per slot, one slot at a time; escaping is per character",
+    note="bounded bug-hunting: text of 1 and 2 symbolic characters per slot, one slot at a time with the others benign, plus 1 character with every other user slot empty; escaping is per character",
     design="3 C19", technique=TECH_E2, engine="crosshair", thorough=True),
 }
 
